@@ -1,7 +1,7 @@
 //! C01 correspondence: "collections have value semantics: mutation never leaks through an alias".
 //!
 //! PART A (three-way): random statement histories in exactly the vocabulary of the Lean driver
-//! (`as si ap po rm co sw` over nested, deliberately aliased lists) are run statement by statement in
+//! (`as si ap po rm co sw up ca` over nested, deliberately aliased lists) are run statement by statement in
 //! the real interpreter; after every statement all variables are dumped and compared with the dumps
 //! of the reference-counted-heap Impl model and of the pure copy-on-assignment Spec (driver_c01).
 //!
@@ -1131,6 +1131,10 @@ enum AStmt {
     Rm(usize, usize, Vec<i64>, i64),
     Co(usize, usize, Vec<i64>),
     Sw(usize, Vec<i64>, usize, Vec<i64>),
+    /// `y = x{i = atom}`
+    Up(usize, usize, i64, Atom),
+    /// `y = x append atom`
+    Ca(usize, usize, Atom),
 }
 fn ipath(p: &[i64]) -> Vec<Ix> {
     p.iter().map(|i| Ix::I(*i)).collect()
@@ -1200,6 +1204,8 @@ impl AStmt {
             AStmt::Rm(..) => "rm",
             AStmt::Co(..) => "co",
             AStmt::Sw(..) => "sw",
+            AStmt::Up(..) => "up",
+            AStmt::Ca(..) => "ca",
         }
     }
     fn tok(&self) -> String {
@@ -1211,6 +1217,8 @@ impl AStmt {
             AStmt::Rm(y, x, p, i) => format!("rm:{}:{}:{}:{}", y, x, ptok(p), i),
             AStmt::Co(y, x, p) => format!("co:{}:{}:{}", y, x, ptok(p)),
             AStmt::Sw(x, px, y, py) => format!("sw:{}:{}:{}:{}", x, ptok(px), y, ptok(py)),
+            AStmt::Up(y, x, i, a) => format!("up:{}:{}:{}:{}", y, x, i, a.tok()),
+            AStmt::Ca(y, x, a) => format!("ca:{}:{}:{}", y, x, a.tok()),
         }
     }
     fn src(&self) -> String {
@@ -1222,6 +1230,8 @@ impl AStmt {
             AStmt::Rm(y, x, p, i) => format!("{} = remove {}{}[{}]", VARS[*y], VARS[*x], psrc(p), i),
             AStmt::Co(y, x, p) => format!("{} = consume {}{}", VARS[*y], VARS[*x], psrc(p)),
             AStmt::Sw(x, px, y, py) => format!("swap {}{}, {}{}", VARS[*x], psrc(px), VARS[*y], psrc(py)),
+            AStmt::Up(y, x, i, a) => format!("{} = {}{{{} = {}}}", VARS[*y], VARS[*x], int_src(*i), a.src()),
+            AStmt::Ca(y, x, a) => format!("{} = {} append {}", VARS[*y], VARS[*x], a.src()),
         }
     }
     /// the paths whose containers the statement mutates: (variable, path to walk when looking for a
@@ -1236,6 +1246,9 @@ impl AStmt {
         };
         match self {
             AStmt::As(..) => vec![],
+            // non-mutating forms: is the payload handed to the update / the builtin held by anybody
+            // besides the variable itself
+            AStmt::Up(_, x, _, _) | AStmt::Ca(_, x, _) => vec![(*x, vec![])],
             AStmt::Si(x, p, _) => vec![(*x, parent(p))],
             AStmt::Ap(x, p, _) | AStmt::Po(_, x, p) | AStmt::Rm(_, x, p, _) => vec![(*x, p.clone())],
             AStmt::Co(_, x, p) => {
@@ -1259,7 +1272,8 @@ impl AStmt {
     }
     fn depth(&self) -> usize {
         match self {
-            AStmt::As(..) => 0,
+            AStmt::As(..) | AStmt::Ca(..) => 0,
+            AStmt::Up(..) => 1,
             AStmt::Si(_, p, _) | AStmt::Ap(_, p, _) | AStmt::Po(_, _, p) | AStmt::Co(_, _, p) => p.len(),
             AStmt::Rm(_, _, p, _) => p.len() + 1,
             AStmt::Sw(_, px, _, py) => px.len().max(py.len()),
@@ -1291,6 +1305,24 @@ fn a_apply(vars: &mut Vec<V>, st: &AStmt) -> bool {
         }
         AStmt::Co(y, x, p) => st_extract(vars, Ext::Consume, *y, *x, &ipath(p)),
         AStmt::Sw(x, px, y, py) => st_swap(vars, *x, &ipath(px), *y, &ipath(py)),
+        AStmt::Up(y, x, i, a) => {
+            let v = a.val(vars);
+            let mut base = vars[*x].clone();
+            match set_index(&mut base, &[Ix::I(*i)], Some(v), false) {
+                Ok(()) => {
+                    vars[*y] = base;
+                    true
+                }
+                Err(()) => false,
+            }
+        }
+        AStmt::Ca(y, x, a) => match binop(Op::Append, vars[*x].clone(), &a.val(vars)) {
+            Some(Ok(v)) => {
+                vars[*y] = v;
+                true
+            }
+            _ => false,
+        },
     }
 }
 
@@ -1344,11 +1376,19 @@ fn a_gen(rng: &mut Rng, vars: &[V], build: bool, ill: bool, hot: Option<usize>) 
     let form = if build {
         *rng.pick(&["as", "as", "as", "as", "si", "si", "ap", "ap", "ap", "sw"])
     } else {
-        *rng.pick(&["as", "as", "si", "si", "si", "si", "ap", "ap", "ap", "po", "po", "rm", "rm", "co", "co", "sw", "sw"])
+        *rng.pick(&[
+            "as", "as", "si", "si", "si", "si", "ap", "ap", "ap", "po", "po", "rm", "rm", "co", "co", "sw", "sw", "up", "up", "ca", "ca",
+        ])
     };
     let x = a_var(rng, vars, form != "as", hot);
     // nothing to mutate yet: build instead
-    let form = if !ill && form != "as" && form != "ap" && !matches!(&vars[x], V::List(l) if !l.is_empty()) { "as" } else { form };
+    let form = if !ill && form != "as" && form != "ap" && form != "ca" && !matches!(&vars[x], V::List(l) if !l.is_empty()) {
+        "as"
+    } else if !ill && form == "ca" && !matches!(&vars[x], V::List(_)) {
+        "as"
+    } else {
+        form
+    };
     let var_pct = if build { 75 } else { 60 };
     let poss = positions(&vars[x], rng);
     let is_list = |p: &Pos| p.kind == Kind::List;
@@ -1376,6 +1416,36 @@ fn a_gen(rng: &mut Rng, vars: &[V], build: bool, ill: bool, hot: Option<usize>) 
                 }
             }
             AStmt::As(y, r)
+        }
+        "up" | "ca" => {
+            // ill-formed: a variable that holds no list (both forms) or an index out of range (update)
+            let non_list: Vec<usize> = (0..vars.len()).filter(|i| !matches!(vars[*i], V::List(_))).collect();
+            let bad_x = ill && !non_list.is_empty() && (form == "ca" || rng.chance(1, 3));
+            let x = if bad_x { non_list[rng.below(non_list.len() as u64) as usize] } else { x };
+            let y = if rng.chance(1, 4) { x } else { y };
+            let atom = if rng.chance(1, 5) { Atom::Var(x) } else { a_atom(rng, vars, var_pct) };
+            if form == "ca" {
+                return AStmt::Ca(y, x, atom);
+            }
+            let l = match &vars[x] {
+                V::List(xs) => xs.len() as i64,
+                _ => 0,
+            };
+            let i = if ill && !bad_x || l == 0 {
+                if rng.chance(1, 2) {
+                    l + rng.range(0, 2)
+                } else {
+                    -l - 1 - rng.range(0, 2)
+                }
+            } else {
+                let j = rng.below(l as u64) as i64;
+                if rng.chance(1, 3) {
+                    j - l
+                } else {
+                    j
+                }
+            };
+            AStmt::Up(y, x, i, atom)
         }
         "si" => {
             let mut path = match pick_pos(rng, &poss, &|p| !p.path.is_empty()) {
@@ -1482,6 +1552,8 @@ struct ARec {
     form: &'static str,
     depth: usize,
     shared: bool,
+    /// `up` / `ca` on a list: the payload is shared between the variable and the callee while it runs
+    copies: bool,
     outcome: &'static str,
 }
 struct AHist {
@@ -1553,6 +1625,10 @@ fn run_a_shard(mut rng: Rng, n_hist: usize, max_len: usize, driver: &str) -> Loc
                 _ => hot,
             };
             let src = st.src();
+            let copies = match &st {
+                AStmt::Up(_, x, _, _) | AStmt::Ca(_, x, _) => matches!(vars[*x], V::List(_)),
+                _ => false,
+            };
             let out = interp.eval(&src);
             let dump = dump_real(&interp, &names);
             vars = trial;
@@ -1565,6 +1641,7 @@ fn run_a_shard(mut rng: Rng, n_hist: usize, max_len: usize, driver: &str) -> Loc
                 form: st.form(),
                 depth: st.depth(),
                 shared,
+                copies,
                 outcome: outcome_name(&out),
             });
         }
@@ -1593,7 +1670,7 @@ fn run_a_shard(mut rng: Rng, n_hist: usize, max_len: usize, driver: &str) -> Loc
         for (i, r) in h.recs.iter().enumerate() {
             hash = fnv(hash, &r.src);
             let raised = r.rust.starts_with('!') || r.rust == "panic";
-            loc.cases.push((hash, r.shared || raised));
+            loc.cases.push((hash, r.shared || raised || r.copies));
             loc.a_cases += 1;
             if r.shared {
                 loc.shared_cases += 1;
@@ -2790,7 +2867,7 @@ fn main() {
     let mut rep = Report::new("C01", &args);
     rep.rule = "PART A: random histories (quick 400 x <=25, thorough 20000 x <=60 statements) over 2..5 variables in the \
                 vocabulary of the Lean model (x = rhs, x[path] = rhs, x[path] append= rhs, y = pop x[path], y = remove x[path][i], \
-                y = consume x[path], swap x[px], y[py]; rhs = atom | [atoms] | [atom] ** n); the first third of a history builds \
+                y = consume x[path], swap x[px], y[py], y = x{i = atom}, y = x append atom; rhs = atom | [atoms] | [atom] ** n); the first third of a history builds \
                 nested lists that share payloads (qb = [qa, qa], [qa] ** 3, qa[1] = qb, qa append= qa), the rest mutates one \
                 holder through every form at depth 0..4 with paths that are valid in a shadow store, ~15 % deliberately \
                 ill-formed (index out of range, indexing an int/null, pop of empty/non-list, append to non-list, remove out of \
